@@ -125,6 +125,16 @@ def run_case(ctx, st, rng, key, wrong_key, key_id):
     order = list(range(len(attrs)))
     rng.shuffle(order)
     attrs = [attrs[i] for i in order]
+    # fill level of the attribute area: a filler attribute sized so that header + attributes + terminator end exactly on a
+    # block boundary (or one byte short of it), in one block or two
+    if s.get("fill", "slack") != "slack":
+        name = "x.fill"
+        base = 512 + sum(len(E.attr_record(t, n_, v, f)) for t, n_, v, f in attrs) + 4 + len(E.attr_record(E.T_BYTES, name, b"", 0))
+        blocks = 2 if s["fill"] == "two-blocks-exact" else 1
+        spare = 1 if s["fill"] == "one-short" else 0
+        flen = blocks * 4096 - base - spare
+        if flen >= 0:
+            attrs.insert(rng.randrange(len(attrs) + 1), (E.T_BYTES, name, bytes(rng.randrange(256) for _ in range(flen)), 0))
     aad = b"ESXConfiguration" if s["aad"] else None
     padding = rng.choice([None, None, (-n) % 4096 + 4096]) if n < (1 << 20) else None
     blob, info = E.seal(payload, key, iv, attrs, aad=aad, padding=padding)
@@ -133,21 +143,30 @@ def run_case(ctx, st, rng, key, wrong_key, key_id):
     if s["tamper"] == "aad":
         gaad = b"ESXConfiguratioN" if aad else b"unexpected"
     gkey = key if g["key"] == "right" else wrong_key
-    want_ok = st["phase"] == "returned"
-    if s["tamper"] == "aad" and not want_ok:
-        pass
-    attrs_v = {"len": s["len"], "tamper": s["tamper"], "key": g["key"], "given_aad": g["aad"], "sealed_aad": s["aad"]}
-    det = {"state": {"sealed": s, "given": g, "spec_phase": st["phase"]}, "attr_names": [a[1] for a in attrs], "padding": info["padding"]}
+    # the state is the end of the second attempt on the same object: st["first"] is the specified outcome of the first
+    # attempt (with `given`), st["phase"] that of the second one (right key, the associated data it was sealed with)
+    attrs_v = {"len": s["len"], "tamper": s["tamper"], "key": g["key"], "given_aad": g["aad"], "sealed_aad": s["aad"], "fill": s.get("fill", "slack")}
+    det = {"state": {"sealed": s, "given": g, "spec_first": st["first"], "spec_second": st["phase"]}, "attr_names": [a[1] for a in attrs], "padding": info["padding"]}
     try:
-        got = Envelope(io.BytesIO(blob)).decrypt(gkey, aad=gaad)
-        ok = True
+        env = Envelope(io.BytesIO(blob))
     except Exception as e:  # noqa: BLE001
-        got, ok = None, False
+        env = None
         det["error"] = f"{type(e).__name__}: {e}"[:200]
-    if want_ok and (not ok or got != payload):
-        ctx.violation({**attrs_v, "fail": "roundtrip"}, {**det, "got_len": (len(got) if got is not None else None), "want_len": n})
-    elif not want_ok and ok:
-        ctx.violation({**attrs_v, "fail": "accepted-tampered"}, {**det, "got_len": len(got), "equals_payload": got == payload})
+    for attempt, want_phase, k_, a_ in ((1, st["first"], gkey, gaad), (2, st["phase"], key, (b"ESXConfiguratioN" if aad else b"unexpected") if s["tamper"] == "aad" else aad)):
+        want_ok = want_phase == "returned"
+        got, ok = None, False
+        if env is not None:
+            try:
+                got = env.decrypt(k_, aad=a_)
+                ok = True
+            except Exception as e:  # noqa: BLE001
+                det["error"] = f"{type(e).__name__}: {e}"[:200]
+        if want_ok and (not ok or got != payload):
+            ctx.violation({**attrs_v, "fail": "roundtrip", "attempt": attempt}, {**det, "attempt": attempt, "got_len": (len(got) if got is not None else None), "want_len": n})
+            return
+        if not want_ok and ok:
+            ctx.violation({**attrs_v, "fail": "accepted-tampered", "attempt": attempt}, {**det, "attempt": attempt, "got_len": len(got), "equals_payload": got == payload})
+            return
 
 
 def cli_cases(ctx, rng, key_text, key, key_id):
@@ -299,7 +318,7 @@ def run(ctx):
                        "re-serialises the header: zero padding, the unused size field and reserved record bytes are outside the property)"]
     diskprop.tlc_check(ctx, "Envelope", "Envelope.cfg", min_states=1000, need_actions=("DecryptVerify",))
     rd = tlc.run("Envelope", "Envelope.cfg", dump=True)
-    sts = [s for s in tlaparse.iter_dump(rd.dump) if s["phase"] in ("returned", "failed")]
+    sts = [s for s in tlaparse.iter_dump(rd.dump) if s["phase"] in ("returned", "failed") and s["attempt"] == 2]
     tlc.cleanup(rd)
     kid, d1, d2, key = keystore_cases(ctx, rng)
     key_text = E.keystore_text(kid, d1, d2)
